@@ -89,10 +89,11 @@ Proof. exact QueryWhen.hurry_up_makes_data_known. Qed.
 Print Assumptions hurry_up_makes_data_known.
 Require D30.
 
-(* OPEN FINDING D30 (known_findings.txt; not repaired): "not skipped" FAILS when a released slot is taken by a new service while a
-   client still carries the old occupant's "already asked" bit.  The statements above are about SLOTS; a slot is not a service once
-   reloads release and refill it.  D30.d30_statement: the model's run (= the daemon's) on the history of D30.v, whose step "5 U"
-   prints the accept line only - no query for the configured dronecheck d.svc, all of whose data are known. *)
-Theorem not_skipped_fails_across_a_reused_slot_refuted : D30.d30_statement.
-Proof. exact D30.d30_refutes. Qed.
-Print Assumptions not_skipped_fails_across_a_reused_slot_refuted.
+(* D30, REPAIRED: the statements above are about SLOTS, and a slot is not a service once reloads release and refill it.  A reload that
+   gives a previously empty slot to a service makes every pending request forget that slot (SlotReuse.reload_forgets_refilled_slots),
+   so the new occupant is asked like any other service (SlotReuse.new_occupant_is_eligible_again).  D30.d30_statement: the model's run
+   on the history of D30.v, whose step "5 U" now prints the CHECK query for the configured dronecheck d.svc (all of whose data are
+   known) and the soft-done line - and no accept line.  Before the repair the step printed the accept line only. *)
+Theorem a_service_in_a_refilled_slot_is_asked : D30.d30_statement.
+Proof. exact D30.d30_repaired. Qed.
+Print Assumptions a_service_in_a_refilled_slot_is_asked.
